@@ -511,6 +511,10 @@ func (c *VCtx) translateField(sc *Scope, x *EField) Val {
 				h := c.heap(sc.state(), l.Heap, ArrSort(SRef, l.Sort))
 				r := Select(h, l.Base)
 				r.GT = l.GT
+				if !strings.Contains(r.S, "q!") && (l.Sort == SInt || l.Sort == SSlice) {
+					// type invariant of the stored value (only for closed terms)
+					c.typeFacts(r, l.GT)
+				}
 				return c.typed(r, l.GT)
 			}
 			return p // embedded struct address / array location
@@ -599,13 +603,24 @@ func (c *VCtx) translateCall(sc *Scope, x *ECall) Val {
 	case "ite":
 		return Ite(arg(0), arg(1), arg(2))
 	case "closed":
-		h := c.heap(st, "G:closed", ArrSort(SRef, SBool))
-		return Select(h, arg(0))
+		return c.isClosed(st, arg(0))
 	case "cancelled":
-		h := c.heap(st, "G:closed", ArrSort(SRef, SBool))
-		return Select(h, c.ctxDone(arg(0)))
+		return c.isClosed(st, c.ctxDone(arg(0)))
 	case "done":
 		return c.ctxDone(arg(0))
+	case "calls":
+		h := c.heap(st, "G:calls", ArrSort(SRef, SInt))
+		return Select(h, arg(0))
+	case "datalen":
+		return c.dataLen(arg(0))
+	case "cancelOf":
+		return c.cancelOf(arg(0))
+	case "srccnt":
+		h := c.heap(st, "G:srccnt", ArrSort(SRef, SInt))
+		return Select(h, arg(0))
+	case "U":
+		fn := c.declareFun("U", []Sort{SRef, SInt}, SInt)
+		return T(SInt, fmt.Sprintf("(%s %s %s)", fn, arg(0).S, arg(1).S))
 	case "allocated":
 		return Select(c.allocHeap(st), arg(0))
 	case "in":
